@@ -81,14 +81,15 @@ CLAIMED = {
          'calls under scopes, singleton uses, colliding constants in interactive mode, failed operations) followed by clear_config and a '
          'tail of observers and calls that is also run in a fresh interpreter with only the registrations.',
          BASE + 'config_str / operative_config_str are compared structurally through the stores here; their text is C06/C07.'),
- 'C02': ('Theorem parseValue_complete: every layout (line breaks and comments after every opener, comma and closer; optional trailing '
-         'commas; the shapes () (x) (x,)) of every literal tree of atoms, lists and tuples, to any nesting depth, parses to exactly that '
+ 'C02': ('Theorem parseValue_complete: every layout (line breaks and comments after every opener, colon, comma, closer and string piece; '
+         'optional trailing commas; the shapes () (x) (x,)) of every literal tree of atoms, numbers with a leading minus, runs of adjacent '
+         'string literals, lists, tuples and dicts, to any nesting depth, parses to exactly that '
          'literal and stops right after it - proved by mutual structural induction on the laid-out literal about the token-level mirror '
          'of config_parser; plus layout_irrelevant, statement_rejects_trailing, minus_requires_basic, adjacent_strings_concat. The mirror '
          'runs on Python\'s own token stream and is compared statement by statement with the real parser on generated literals in random '
          'layouts and on a near-miss stream; ast.literal_eval of the same text is the independent oracle (value and type).',
          BASE + 'Partial: text->tokens (tokenize) and token->atom (ast.literal_eval of one token) are CPython\'s; the completeness theorem '
-         'does not yet cover dict literals, adjacent string pieces and the leading minus (they are in the mirror and the correspondence); '
+         'covers str pieces (not bytes pieces) in adjacent concatenation; '
          'soundness (nothing outside the grammar is accepted) is tested by the near-miss stream, not proved. D9 is a recorded finding.'),
  'C03': ('Theorems parseAll_bindings + flat_layouts_agree (statement-level completeness for flat bindings: any sequence of binding '
          'statements, each preceded by arbitrary comments / blank lines and with its value in any layout, is read as exactly those '
